@@ -22,7 +22,7 @@ TraceInit ==
   /\ tid \in 1..Len(Traces)
   /\ l = 1 /\ sil = {}
   /\ Init
-  /\ fail = ToSet(Traces[tid].fail)
+  /\ fail = ToSet(Traces[tid].fail_by_inc[1])
   /\ kind = Traces[tid].kind
 
 Is(e) == l <= Len(Events) /\ Ev.ev = e
@@ -30,7 +30,7 @@ Is(e) == l <= Len(Events) /\ Ev.ev = e
 \* harness-level events -----------------------------------------------------
 \* "Start": first incarnation is the initial state; later ones are the user's re-run
 TStart == /\ Is("Start")
-          /\ IF Ev.inc = 1 THEN UNCHANGED vars ELSE Rerun
+          /\ IF Ev.inc = 1 THEN UNCHANGED vars ELSE (Rerun /\ fail' = ToSet(Traces[tid].fail_by_inc[Ev.inc]))
 
 \* "Crash": the launcher saw the process group die from SIGKILL and read the disk
 DiskMatches(e) == /\ hdr = e.hdr
